@@ -203,22 +203,39 @@ def hir_strs(h):
     return out
 
 
-def conversions(sc):
-    """every function borrowed-declaration -> its owned twin, whatever it is called: {canon: (borrowed, owned)}"""
-    out = {}
+def conversions(sc, F=None):
+    """the conversion functions borrowed-declaration -> owned twin: the `From` impls, and any function with that signature a conversion
+    merely forwards its argument to (e.g. an inherent `from_borrowed`).  Other functions of that signature (constructor helpers for one
+    variant) are private helpers and are analysed in place.  {canon: (borrowed, owned)}"""
+    cand = {}
     for g in sc.fns:
         if "{closure" in g.canon or len(g.locals) < 2 or getattr(g, "argc", 1) != 1:
             continue
         ret, a1 = g.locals[0]["ty"], g.locals[1]["ty"]
         for b, o in PAIRS:
             if ret == "schema::owned::" + o and re.match(r"^&('\w+ )?schema::%s$" % b, a1):
-                out[g.canon] = (b, o)
+                cand[g.canon] = (b, o)
+    out = {cn: bo for cn, bo in cand.items() if (sc.by_canon[cn].impl_trait or "") in ("core::convert::From", "core::convert::Into")}
+    if F is None:
+        return out
+    work = list(out)
+    while work:
+        f = sc.by_canon[work.pop()]
+        ps = [p for p in sym.Engine(F, max_visits=2, inline=lambda g, ev: False).run(f) if p.status == "return"]
+        if len(ps) != 1 or ps[0].ret[0] != "call" or ps[0].pc:
+            continue
+        e = tbl.event_by_id(ps[0], ps[0].ret[1])
+        cn = ((e or {}).get("callee") or {}).get("canon")
+        src = ("param", 1, f.locals[1]["ty"])
+        if cn in cand and cn not in out and cand[cn] == out[f.canon] and len(e["args"]) == 1 and norm(e["args"][0]) in (src, ("init", ("P", src)), ("ref", ("P", src))):
+            out[cn] = cand[cn]
+            work.append(cn)
     return out
 
 
 def check_from(run_, F, sc, f, b, o, chain=()):
     ab, ao = adt(sc, b, False), adt(sc, o, True)
-    convs = conversions(sc)
+    convs = conversions(sc, F)
     # private helpers are analysed in place; the conversions themselves (any fn(&Borrowed) -> Owned) stay calls and are judged one by one
     eng = sym.Engine(F, max_visits=2, max_depth=8,
                      inline=lambda g, ev: g.crate == "postcard_schema" and g.canon not in convs and "{closure" not in g.canon)
